@@ -172,15 +172,15 @@ PROPS = {
     "C08": {"streams": [sim_stream("c08", ["C08"], {"bad": 0.3})]},
     "C09": {"streams": [S("loader", "canon", ["C09"], 3000, 100000, {"valid": 0.9, "defect": 0.1, "dead": 0.2})]},
     "C10": {"streams": [S("loader", "canon", ["C10"], 3000, 100000, {"valid": 0.9, "defect": 0.05, "dead": 0.45})]},
-    "C11": {"streams": [S("loader", "err", ["C11"], 4000, 120000, {"valid": 0.6, "defect": 0.5, "dead": 0.1})]},
-    "C12": {"streams": [S("mkproc", "all", ["C12"], 0, 0, explicit=mkproc_scope, exhaustive=True),
-                        S("mkproc", "all", ["C12"], 2000, 60000, {"nmax": 8}),
-                        S("loader", "exact", ["C12"], 2000, 60000, {"valid": 0.9, "defect": 0.05, "dead": 0.2})]},
-    "C13": {"streams": [S("recase", "all", [], 2500, 80000)]},
+    "C11": {"streams": [S("loader", "acc", ["C11"], 4000, 120000, {"valid": 0.6, "defect": 0.5, "dead": 0.1})]},
+    "C12": {"streams": [S("mkproc", "canon", ["C12"], 0, 0, explicit=mkproc_scope, exhaustive=True),
+                        S("mkproc", "canon", ["C12"], 2000, 60000, {"nmax": 8}),
+                        S("loader", "canon", ["C12"], 2000, 60000, {"valid": 0.9, "defect": 0.05, "dead": 0.2})]},
+    "C13": {"streams": [S("recase", "canon", [], 2500, 80000)]},
     "C14": {"streams": [S("parse", "all", ["C14", "C14x"], 4000, 150000, direct="C14_roundtrip / C14_no_operands / C14_empty_operand")]},
     "C15": {"streams": [S("isa", "all", ["C15"], 3000, 100000, direct="C15_isa_ok / C15_isa_first_defect / C15_compile_ok / C15_compile_fail"),
                         S("abilities", "all", ["C15"], 1000, 30000, direct="C15_abilities")]},
-    "C16": {"streams": [S("pipeline", "all", ["C16", "TC01", "TC02", "TC03", "TC04", "TC05", "TC06", "TC07", "TC08"],
+    "C16": {"streams": [S("pipeline", "table", ["C16", "TC01", "TC02", "TC03", "TC04", "TC05", "TC06", "TC07", "TC08"],
                           160, 1500)]},
     "C17": {"streams": [S("bag", "all", [], 0, 0, explicit=bag_scope, exhaustive=True, direct="C17_eq_iff / C17_len / C17_repr"),
                         S("bag", "all", [], 3000, 100000, direct="C17_eq_iff / C17_len / C17_repr")]},
